@@ -332,6 +332,10 @@ def run(ctx):
                 for x in walk(ex):
                     if x.k == 'bin' and x.op == '-=' and is_unsigned_type(strip(x.a[0]).t, strip(x.a[0]).dt):
                         subs.append(x)
+                    if x.k == 'bin' and x.op == '-' and is_unsigned_type(x.t, x.dt) and const_value(x.a[1]) is not None \
+                            and const_value(x.a[1]) >= 1 and strip(x.a[0]) is not None and strip(x.a[0]).k in ('var', 'mem') \
+                            and not (strip(x.a[0]).t or '').rstrip().endswith('*'):
+                        subs.append(x)
             if not subs:
                 continue
 
@@ -360,6 +364,30 @@ def run(ctx):
                             s.violate(c2, 'underflow', '%s -= %s on an unsigned quantity without a preceding comparison '
                                       'that implies %s >= %s on this path: wraps to a huge value' % (x, show(rhs), x, y),
                                       inst='%s-=%s' % (x.split('->')[-1], y.lstrip('#')))
+                    # X - k (k a positive constant) on an unsigned 64-bit X inside the assigned value: same obligation
+                    if c2.fn is s.fn and rhs is not None and op in ('=', '+=', '-='):
+                        for nd_ in walk(rhs):
+                            if nd_.k == 'bin' and nd_.op == '-' and is_unsigned_type(nd_.t, nd_.dt) and \
+                                    const_value(nd_.a[1]) is not None and const_value(nd_.a[1]) >= 1 and \
+                                    strip(nd_.a[0]) is not None and strip(nd_.a[0]).k in ('var', 'mem') and \
+                                    not (strip(nd_.a[0]).t or '').rstrip().endswith('*') and \
+                                    is_unsigned_type(strip(nd_.a[0]).t, strip(nd_.a[0]).dt):
+                                s.checked += 1
+                                x = s.operand(nd_.a[0], c2, ts)
+                                k = const_value(nd_.a[1])
+                                ok = False
+                                for _, o, lp, rp in s.raw(ts):
+                                    for (a, b, oo) in ((lp, rp, o), (rp, lp, {'<': '>', '>': '<', '<=': '>=', '>=': '<=',
+                                                                               '==': '==', '!=': '!='}[o])):
+                                        if a == x and b.startswith('#'):
+                                            c = int(b[1:])
+                                            if (oo == '>' and c >= k - 1) or (oo == '>=' and c >= k) or (oo == '==' and c >= k):
+                                                ok = True
+                                if not ok:
+                                    s.violate(c2, 'underflow', '%s - %d on an unsigned quantity without a preceding comparison '
+                                              'that implies %s >= %d on this path: wraps to a huge value (an offset or length '
+                                              'derived from it points outside the buffer)' % (x, k, x, k),
+                                              inst='%s-%d' % (x.split('->')[-1], k))
                     return GuardRule.on_assign(s, c2, lhs, rhs, op, value, ts)
             vocab = set()
             for x in subs:
